@@ -17,7 +17,10 @@ Record case := {
   c_answers : list (list (N * bool));       (* distinct answers of ValidatingAccountsForEpoch: (validator, account present), sorted *)
   c_answers_idx : list (list (N * bool));   (* distinct answers of ValidatingAccountsForEpochByIndex *)
   (* cache history scenarios only (empty otherwise): every completed operation on a tracked root and every clean,
-     with invocation / response stamps (Model/C17_Cache.v) *)
+     with invocation / response stamps (Model/C17_Cache.v).  Records of kind 3 are pairs that every sequential
+     order keeps together (h_key = h_val): the hash and height of one execution head (cache-linear), and, scenario
+     validatorsmanager-stable, the generation of a validator read when a lookup handed it out and the generation
+     read from the SAME object after a later refresh (a published validator is never written again) *)
   c_history : list hop
 }.
 
